@@ -105,21 +105,24 @@ AssocAgree(g, near, op, x, ac, rc, ro, rr) ==
   THEN r.S \ {x} = AssocsVia(g, near, x, ac, rc, ro, rr) \ {x}
   ELSE r.k = "err4" /\ AqMayErr(ac, rc, ro, rr)
 
-RefAgree(g, near, x, rc, ro) ==
+RefAgreeOn(g, near, x, rc, ro, refs) ==
   \A op \in {"AN", "A"} :
-     LET r == ImplRefOp(op, g, x, rc, ro) IN
+     LET r == ImplRefOpOn(op, g, x, rc, refs) IN
      IF r.k = "ok"
      THEN /\ 0 \notin r.S
           /\ {g.assocs[j].g : j \in r.S} = RefsVia(near, x, rc, ro)
      ELSE r.k = "err4" /\ RqMayErr(rc, ro)
+RefAgree(g, near, x, rc, ro) ==
+  RefAgreeOn(g, near, x, rc, ro, ImplRefPaths(g, x, rc, ro))
 
 (* AssociatorNames and Associators are the same call in the code; the      *)
 (* second one is only evaluated when the regression switch separates them  *)
 OpsU == IF SwapIn = "" THEN {"AN"} ELSE {"AN", "A"}
 
 (* SwapIn = "": phase 1 depends on (AssocClass, Role) only; it is evaluated *)
-(* once per pair and shared by all (ResultClass, ResultRole) (same values   *)
-(* as ImplAssocOp, fewer TLC evaluations).  When phase 1 finds nothing and  *)
+(* once per pair and shared by all (ResultClass, ResultRole) and by the     *)
+(* reference operations with ResultClass = ac (same values as ImplAssocOp / *)
+(* ImplRefOp, fewer TLC evaluations).  When phase 1 finds nothing and  *)
 (* no stored instance of the AssocClass subtree touches x, both sides are   *)
 (* unions over the empty set for every (ResultClass, ResultRole): skipped,  *)
 (* except in the initial state where the state-independent error branch is  *)
@@ -133,6 +136,7 @@ ImplEqualsDecl ==
                LET refs == ImplRefPaths(g, x, ac, ro)
                    nearac == {b \in near : ClassOk(b.cls, ac)} IN
                /\ PathsInStore(g, x, refs)
+               /\ RefAgreeOn(g, near, x, ac, ro, refs)   \* ResultClass = ac
                /\ \/ refs = {} /\ nearac = {} /\ store # {}
                   \/ \A rc \in RcU, rr \in RlU :
                        IF BadFilterClass(ac, rc) THEN AqMayErr(ac, rc, ro, rr)
@@ -140,7 +144,7 @@ ImplEqualsDecl ==
                               = AssocsVia(g, nearac, x, "", rc, ro, rr) \ {x}
         ELSE \A ac \in AcU, rc \in RcU, ro \in RlU, rr \in RlU, op \in OpsU :
                AssocAgree(g, near, op, x, ac, rc, ro, rr)
-     /\ \A rc \in AcU, ro \in RlU : RefAgree(g, near, x, rc, ro)
+     /\ SwapIn = "" \/ \A rc \in AcU, ro \in RlU : RefAgree(g, near, x, rc, ro)
 
 (*--------------- laws of the requirement itself --------------------------*)
 DeclSymmetric ==
